@@ -5,6 +5,9 @@ import json, subprocess, sys
 
 CLAIMED = {
  # id: (engine kind, what is enumerated, technique)
+ "C01": ("E2 product over construct nestings + E1 breadth-first statement sequences",
+         "every chain of depth 0..2 (thorough: plus depth 3 over 10 core contexts) over 26 construct contexts (blocks, every branch position, while, for over list / string / object / range, named / twice-called / recursive / anonymous / callback / method / returned-closure functions, destructuring parameters, closures created and collected in loops, returns through nested blocks) around each of 65 payload fragments (one documented feature each, printing what it observed), with and without a same-named outer variable; every depth-0/1 chain around every ordered payload pair placed inside / inside+after; all statement sequences of length <= 3 (thorough 4) from 33 statements with dead-state pruning; oracle = reference interpreter (stdout byte-identical, same termination class)",
+         "exhaustive enumeration of construct nestings and statement sequences on the real interpreter against a reference interpreter"),
  "C02": ("E1 breadth-first history exploration with heap-graph deduplication + E2 products",
          "all histories of <= 5 (quick) / <= 7 (thorough, wall-capped) operations from 56 alias-shape operations on a, b, c (a container stored in itself / in its comparand / on both sides of an operator, element += with the container itself, range assignment / spread / collect / destructuring of a container into itself, loops that overwrite what they iterate, print and == / != / === against itself and wrappers of itself, a function mutating one parameter and comparing it with the other), merged on the isomorphism class of the reference heap graph (cycles included); 16 operators x 24^2 ordered operand pairs over aliased and cyclic shapes, op-assign and plain assignment x 9 places x 24 operands, 13 contexts x 24 operands; integer boundary pairs, multi-byte text around slots, out-of-range slices; oracle = the run ends by completion or reported diagnostic (never panic / signal / hang), and equals the reference output wherever no self-containing container is traversed",
          "explicit-state breadth-first exploration with canonical-state deduplication on the real interpreter; crash oracle"),
